@@ -15,4 +15,6 @@ Separate Extraction
   Mini.Faults.unit_key Mini.Faults.unit_deps Mini.Faults.site_nid Mini.Faults.dup_sites Mini.Faults.occs_program
   Mini.Rewrites.apply_rewrite Mini.Rewrites.applicable Mini.Rewrites.add_sites Mini.Rewrites.phrase_ids
   Mini.Rewrites.use_all_sites Mini.Rewrites.conc_ids Mini.Rewrites.use_occs_of_phrase Mini.Rewrites.idents_program
+  Mini.Rewrites.block_ids Mini.Rewrites.lit_idents Mini.Faults.sub_idents Mini.Faults.oc_conc
+  Mini.Faults.sub_candidates Mini.Faults.call_candidates
   Mini.Syntax.nids_dunit.
